@@ -249,6 +249,13 @@ def r03_7(prog, rep):
                     if T.contains(tm, lambda x: x == ("const", "__required_keys__") or (x[0] == "attr" and x[2] == "__required_keys__")):
                         enforced = True
     raises = any(pth.exit[0] == "raise" for pth in P.paths_of(prog, f)) or enforced
+    # the outcome is decided by the required-keys test alone: no path returns under the very test outcome that raises
+    has_req = lambda x: x == ("const", "__required_keys__") or (x[0] == "attr" and x[2] == "__required_keys__")  # noqa: E731
+    ps = P.paths_of(prog, f)
+    on_raise = {(g, pol) for pth in ps if pth.exit[0] == "raise" for g, pol in pth.guards() if T.contains(g, has_req)}
+    leaks = [pth for pth in ps if pth.exit[0] == "return" and not any((g, not pol) in on_raise for g, pol in pth.guards() if T.contains(g, has_req))]
+    if on_raise:
+        rep.check(not leaks, "R03.7", fb.qualname, f.loc, "a value with required keys missing never reaches the constructor (the required-keys test alone decides)", "a path builds the TypedDict although the required-keys test found keys missing: a further condition (e.g. __total__, which only describes the keys of the last class statement) lets a TypedDict without its required keys through", detail="typeddict-required-unconditional")
     rep.check(enforced and raises, "R03.7", fb.qualname, f.loc, "required TypedDict keys are checked before the mapping is built", "the structured routine never consults __required_keys__: for a TypedDict target, dict(**kwargs) accepts any subset of the fields — unmarshal(Movie, {}) == {} although `title` and `year` are required (dataclasses and named tuples reject the same input)", detail="typeddict-required")
 
 
@@ -259,6 +266,8 @@ def run(prog: Program, rep: Report, tier: str):
     rep.rule("R03.4", "Literal membership dominates every return and is class-aware; fall-through raises ValueError", floor=5)
     rep.rule("R03.7", "a TypedDict result has its required keys", floor=1)
     r03_7(prog, rep)
+    rep.rule("R03.8", "no concrete class is routed to the pass-through routine (leaf test interpreted on the catalogue; shared with R09.9)", floor=1)
+    C.leaf_test_agreement(prog, rep, "R03.8")
     rep.rule("R03.6", "composite forms reach the routine of their own structural kind (fixed tuples keep arity/positions; shared with R01.6)", floor=15)
     rep.rule("R03.5", "origin map yields concrete constructors of the mapped kind (shared with R17.1)", floor=18)
     r03_1(prog, rep)
